@@ -5,3 +5,13 @@ void heart_beat() {
   vlog("\"e\":\"HB\",\"ob\":" + jq(me()));
   if (scripts["hb"]) do_ops(scripts["hb"], "hb");
 }
+
+void reset() {
+  vlog("\"e\":\"ResetRun\",\"ob\":" + jq(me()));
+  if (scripts["reset"]) do_ops(scripts["reset"], "reset");
+}
+int clean_up(int inh) {
+  vlog("\"e\":\"CleanUp\",\"ob\":" + jq(me()));
+  if (scripts["cleanup"]) do_ops(scripts["cleanup"], "clean_up");
+  return 1;
+}
